@@ -1066,23 +1066,47 @@ func runRealSigners(e *env, seed int64) {
 			}
 			cl := &recClient{plan: map[string]int{}, deflt: 200}
 			tp := pub.NewHttpSigTransport(cl, e.appAgent, e.clock, gs, ps, e.keyID, priv)
-			payload := []byte(fmt.Sprintf(`{"type":"Note","content":"signed %d"}`, hi))
+			// the payload is a window of a larger buffer of the caller's:
+			// what lies behind it is not the transport's (nor the signer's)
+			// to write to
+			text := fmt.Sprintf(`{"type":"Note","content":"signed %d"}`, hi)
+			arena := append([]byte(text), bytes.Repeat([]byte{0xA5}, 64)...)
+			payload := arena[:len(text)]
 			var rec []*url.URL
 			for j := 0; j < 4; j++ {
 				rec = append(rec, mustURL(fmt.Sprintf("https://sig%d.example/inbox?j=%d", j, j)))
 			}
+			// recipients whose URL is not what goes on the wire letter by
+			// letter: an empty port, no path at all
+			rec = append(rec, mustURL("https://sig4.example:/inbox"), mustURL("https://sig5.example"), mustURL("https://sig6.example?x=1"))
 			errB := tp.BatchDeliver(bg, payload, rec)
 			_, errD := tp.Dereference(bg, mustURL("https://sig.example/obj/1"))
-			e.r.Eval(2)
-			e.childEvals += 2
+			_, errD2 := tp.Dereference(bg, mustURL("https://sig7.example:"))
+			if errD == nil {
+				errD = errD2
+			}
+			e.r.Eval(3)
+			e.childEvals += 3
 			cas := map[string]interface{}{"algorithm": string(algo), "headers": hl}
+			if !bytes.Equal(arena[len(text):], bytes.Repeat([]byte{0xA5}, 64)) || string(arena[:len(text)]) != text {
+				e.viol("payload-altered", "memory behind the payload", cas, fmt.Sprintf("the %d bytes behind the payload slice (its spare capacity) were overwritten during the delivery: % x", 64, arena[len(text):len(text)+32]))
+			}
 			if errB != nil || errD != nil {
 				e.viol("real-signer-failed", string(algo), cas, fmt.Sprintf("batch err=%v deref err=%v", errB, errD))
 				continue
 			}
 			for _, c := range cl.take() {
+				// the request as the peer receives it: the Host the client
+				// sends is the request's Host field (the URL's host, without
+				// an empty port), the target of a URL without a path is "/"
 				req, _ := http.NewRequest(c.Method, c.URL, bytes.NewReader(c.Body))
 				req.Header = c.Header.Clone()
+				if c.Host != "" {
+					req.Header.Set("Host", c.Host)
+				}
+				if req.URL.Path == "" {
+					req.URL.Path = "/"
+				}
 				v, err := httpsig.NewVerifier(req)
 				if err != nil {
 					e.viol("signature-missing", string(algo), cas, fmt.Sprintf("%s %s: %v", c.Method, c.URL, err))
